@@ -41,6 +41,9 @@ fn main() {
         "C08" => events::run_check(events::Mode::C08, replay),
         "C09" => events::run_check(events::Mode::C09, replay),
         "C10" => events::run_check(events::Mode::C10, replay),
+        "C06" => c06::run_check(replay),
+        "C11" => c11::run_check(replay),
+        "C12" => c12::run_check(replay),
         "C16" => c16::run(replay),
         "C17" => c17::run(replay),
         "C18" => c18::run_check(replay),
